@@ -10,6 +10,9 @@ Tie to the code on every run (observation level: public constructors only)
   valid stream      all-valid values in all shapes must be ACCEPTED (a validator rejecting everything is caught;
                     the legal values come from the documentation, not from the code tables)
   free stream       empty lists, None elements, ill-typed values: outside the statement, compared with the model only
+  data shapes       every document rule over frames of 0 / 1 / few / many rows, frames without columns, an empty
+                    section anywhere in a multi-section list; systematic product grouping option × string / list form
+                    × position of the missing name × data shape × section layout, each with its legal twin
   whole calls       components built inline, then `RTFDocument(...)`, then `rtf_encode()`: the stage at which the
                     exception appears is recorded (“up front” = before any document object exists)
 π = exception class mapped to {ok, ValueError (pydantic ValidationError included), FileNotFoundError, other}.
@@ -28,9 +31,11 @@ from .. import common
 from ..common import sub_rng
 
 RULE = ("constructor calls of the 8 attribute components, RTFPage, RTFFigure, RTFDocument with 1–3 supplied "
-        "validated fields in scalar / list / tuple / nested-list shape; non-trivial = the specification verdict is "
-        "not `free` (reject, notFound, rejectAny or accept); distinct by (constructor, fields, shapes, position "
-        "class of the bad value, the bad value, verdict)")
+        "validated fields in scalar / list / tuple / nested-list shape; RTFDocument calls over frames of 0 / 1 / few / "
+        "many rows and frames without columns (single frame or any section of a 1–3 section list), grouping options "
+        "as string or list with the missing name first / inner / last / alone; non-trivial = the specification "
+        "verdict is not `free` (reject, notFound, rejectAny or accept); distinct by (constructor, fields, shapes, "
+        "position class of the bad value, the bad value, data shape, verdict)")
 TRUSTED = [
     "Lean 4.33 kernel; axioms ⊆ {propext, Classical.choice, Quot.sound} (audited per theorem on every run)",
     "Lean compiler for the driver executable (compiled evaluation agrees with kernel reduction)",
@@ -45,7 +50,12 @@ MANIFEST = dict(
          "page, figure (FileNotFoundError) and document rules as decision-logic theorems; the generated code tables "
          "equal the documented value sets (kernel-decided, re-opened by any table edit). The model is tied to the "
          "code on every run by malformed / valid / free constructor streams judged by the Lean-defined verdict.",
-    note="pydantic's type coercion and error collection are modelled only as far as the outcome class depends on "
+    note="Document rules (grouping columns missing from the data, df xor figure, list lengths, figure rules, inline "
+         "components, new_page without page_by) run over the range of data shapes: frames of 0 ('no observations' "
+         "table), 1, few and many rows, frames without columns, an empty section at any place of a 1–3 section list, "
+         "the missing name at any position of a string- or list-valued group_by / page_by / subline_by; the model's "
+         "frame carries column names and height separately and the theorems state that only the names matter. "
+         "pydantic's type coercion and error collection are modelled only as far as the outcome class depends on "
          "them; numeric strings, DataFrame-valued attributes and default values are outside the model (defaults are "
          "exercised by every constructor call of the valid stream).",
     technique="Lean 4 proof (induction over nested lists + kernel-decided table facts) + differential "
@@ -520,6 +530,129 @@ def gen_doc(rng, mode):
     return c
 
 
+# ------------------------------------------------------------------ document rules over the range of data shapes
+
+ROW_CHOICES = [0, 0, 0, 1, 1, 2, 3, 50]
+GROUP_KEYS = ["group_by", "page_by", "subline_by"]
+MISSING = ["z", "A", "a ", "col9", "", "nope", "Ax"]
+
+
+def rows_class(n):
+    return "0" if n == 0 else "1" if n == 1 else "few" if n <= 3 else "many"
+
+
+def apply_shape(rng, c):
+    """every frame of a document case gets a number of rows (0 = "no observations" table, 1, few, many), now and
+    then no columns at all; one-name grouping options now and then in the string form; now and then a body built
+    inline with `new_page=True` (with or without page_by). The verdict is the driver's on the case as it stands."""
+    df = c.get("df")
+    if df is not None:
+        if "single" in df:
+            if rng.random() < 0.12:
+                df["single"] = []
+            df["rows"] = rng.choice(ROW_CHOICES) if df["single"] else 0
+        else:
+            secs = df["multi"]
+            for k in range(len(secs)):
+                if rng.random() < 0.1:
+                    secs[k] = []
+            df["rows"] = [rng.choice(ROW_CHOICES) if sec else 0 for sec in secs]
+    body = c.get("body")
+    specs = [] if body is None else (body["multi"] if "multi" in body else [body["single"]])
+    for bs in specs:
+        for g in GROUP_KEYS:
+            if g in bs and len(bs[g]) == 1 and rng.random() < 0.4:
+                bs.setdefault("_str", []).append(g)
+    if specs and df is not None and rng.random() < 0.2:
+        k = rng.randrange(len(specs))
+        if not any(cc.get("role") == f"body:{k}" for cc in c.get("comps", [])):
+            cc = gen_comp(rng, "valid", comp="RTFBody")
+            cc["extra"] = dict(page_by="page_by" in specs[k], new_page=True)
+            cc["role"] = f"body:{k}"
+            c.setdefault("comps", []).append(cc)
+            c["new_page_inline"] = True
+    c["shaped"] = True
+    return c
+
+
+def gen_missing_col_cases(seed):
+    """systematic: grouping option × string / list form × position of the missing name × data shape × section
+    layout, each with its legal twin (the same call without the missing name)"""
+    cases = []
+    k = 0
+    layouts = [("single", 1, 0), ("multi", 1, 0), ("multi", 2, 0), ("multi", 2, 1), ("multi", 3, 0), ("multi", 3, 1),
+               ("multi", 3, 2)]
+    forms = [("str", "only"), ("list", "only"), ("list", "first"), ("list", "inner"), ("list", "last")]
+    for key in GROUP_KEYS:
+        for form, pos in forms:
+            for shape in (0, 1, 3, 50, "nocols"):
+                for kind, nsec, badsec in layouts:
+                    for twin in (False, True):
+                        rng = sub_rng(seed, "c19cols", k)
+                        k += 1
+                        secs, rows = [], []
+                        for j in range(nsec):
+                            if j == badsec:
+                                cols = [] if shape == "nocols" else rng.sample(COLS, rng.randint(3, 5))
+                                n = 0 if shape == "nocols" else shape
+                            else:
+                                cols = rng.sample(COLS, rng.randint(1, 4))
+                                n = rng.choice(ROW_CHOICES)
+                            secs.append(cols)
+                            rows.append(n)
+                        cols = secs[badsec]
+                        miss = rng.choice(MISSING)
+                        good = rng.sample(cols, min(len(cols), {"only": 0, "first": 1, "last": 1, "inner": 2}[pos]))
+                        if twin:
+                            names = good or cols[:1]
+                        elif pos == "first":
+                            names = [miss] + good
+                        elif pos == "last":
+                            names = good + [miss]
+                        elif pos == "inner":
+                            names = good[:1] + [miss] + good[1:]
+                        else:
+                            names = [miss]
+                        bodies = []
+                        for j in range(nsec):
+                            bs = {}
+                            if j == badsec:
+                                if names:
+                                    bs[key] = names
+                                    if form == "str" and len(names) == 1:
+                                        bs["_str"] = [key]
+                                # the other grouping options of the same body: legal, now and then
+                                for g in GROUP_KEYS:
+                                    if g != key and cols and rng.random() < 0.25:
+                                        bs[g] = rng.sample(cols, 1)
+                            elif secs[j] and rng.random() < 0.4:
+                                bs[rng.choice(GROUP_KEYS)] = rng.sample(secs[j], 1)
+                            bodies.append(bs)
+                        c = dict(kind="doc", mode="valid" if twin else "bad", rule="cols", comps=[], figure=False,
+                                 shaped=True, missing=None if twin else dict(key=key, form=form, pos=pos, sec=badsec, of=nsec))
+                        if kind == "single":
+                            c.update(df={"single": secs[0], "rows": rows[0]}, body={"single": bodies[0]},
+                                     header=rng.choice([{"flat": 1}, {"flat": 0}]))
+                        else:
+                            c.update(df={"multi": secs, "rows": rows}, body={"multi": bodies},
+                                     header=rng.choice([{"flat": 1}, {"nested": nsec}, {"flat": 0}]))
+                        cases.append(c)
+    return cases
+
+
+def gen_shape_cases(seed, tier):
+    """every document rule (missing grouping columns, df xor figure, list lengths, figure rules, inline
+    components, new_page) over 0 / 1 / few / many rows, no columns, an empty section anywhere in a list"""
+    n = 900 if tier == "quick" else 18000
+    cases = gen_missing_col_cases(seed)
+    for k in range(n):
+        rng = sub_rng(seed, "c19shape", k)
+        r = rng.random()
+        mode = "bad" if r < 0.55 else ("valid" if r < 0.85 else "free")
+        cases.append(apply_shape(rng, gen_doc(rng, mode)))
+    return cases
+
+
 # ------------------------------------------------------------------ running the real code
 
 _PNG = bytes.fromhex("89504e470d0a1a0a0000000d4948445200000001000000010806000000"
@@ -575,10 +708,26 @@ def _construct_comp(case, extra_kw=None):
     return cls(**kw)
 
 
-def _frame(cols):
+def _frame(cols, nrows=3):
+    """a frame of string columns with `nrows` rows (0 = a "no observations" table; no columns = no rows)"""
     import polars as pl
 
-    return pl.DataFrame({c: ["x", "y", "z"] for c in cols})
+    vals = [("x", "y", "z")[i % 3] + (str(i // 3) if i >= 3 else "") for i in range(nrows)]
+    return pl.DataFrame({c: list(vals) for c in cols}, schema={c: pl.Utf8 for c in cols})
+
+
+def _frames(df):
+    """the `df` argument of a document case: {"single": cols, "rows": n} | {"multi": [cols…], "rows": [n…]}"""
+    if "single" in df:
+        return _frame(df["single"], df.get("rows", 3))
+    rows = df.get("rows") or [3] * len(df["multi"])
+    return [_frame(c, n) for c, n in zip(df["multi"], rows)]
+
+
+def _grouping(bs):
+    """RTFBody grouping arguments of a body spec; one-name options listed under "_str" in the string form"""
+    as_str = bs.get("_str") or []
+    return {g: (v[0] if (g in as_str and len(v) == 1) else list(v)) for g, v in bs.items() if g != "_str"}
 
 
 def _worker(case):
@@ -617,7 +766,7 @@ def _worker(case):
             if bspecs is not None:
                 for k, bs in enumerate(bspecs):
                     cc = by_role.get(f"body:{k}")
-                    grouping = {g: list(v) for g, v in bs.items()}
+                    grouping = _grouping(bs)
                     if cc is not None:
                         bodies.append(_construct_comp(cc, grouping))
                     else:
@@ -627,7 +776,7 @@ def _worker(case):
             kw = {}
             df = case.get("df")
             if df is not None:
-                kw["df"] = _frame(df["single"]) if "single" in df else [_frame(c) for c in df["multi"]]
+                kw["df"] = _frames(df)
             if body is None:
                 kw["rtf_body"] = None
             elif "multi" in body:
@@ -770,6 +919,12 @@ def judge(res, case, ob, drv):
     if bad:
         got = "was accepted" if pi == "ok" else f"raised {ob['exc']}: {ob['msg']}"
         tail = _probe_encode(case) if (pi == "ok" and spec != "accept") else ""
+        if pi == "ok" and spec != "accept" and case["kind"] == "doc" and ob.get("stage") == "done":
+            # "no document object and no RTF string": say what the accepted object then did
+            if ob.get("encoded"):
+                tail = "; a document object was produced and rtf_encode() returned an RTF string"
+            elif ob.get("encode_error"):
+                tail = f"; a document object was produced and rtf_encode() then raised {ob['encode_error']}"
         res.fail(case, f"{what} {bad}, but {got}{tail}")
         return True
     if pi != model:
@@ -936,7 +1091,7 @@ def gen_cases(seed, tier):
         else:
             c = gen_doc(rng, mode)
         cases.append(c)
-    return cases
+    return cases + gen_shape_cases(seed, tier)
 
 
 def nontrivial_key(case, drv):
@@ -947,6 +1102,32 @@ def nontrivial_key(case, drv):
         return (k, case["comp"], tuple(f for f, _ in case["kw"]), tuple(case.get("shapes", ())),
                 tuple(case.get("pos", ())), repr(case["kw"])[:200], drv["spec"])
     return (k, repr({a: b for a, b in case.items() if a not in ("mode",)})[:300], drv["spec"])
+
+
+def count_shape(res, c, d):
+    """input distribution of the data-shape streams"""
+    df = c.get("df")
+    frames = []
+    if df is not None:
+        frames = [(df["single"], df.get("rows", 3))] if "single" in df else list(zip(df["multi"], df["rows"]))
+    classes = {("nocols" if not cols else "rows" + rows_class(n)) for cols, n in frames}
+    for cl in sorted(classes):
+        res.count(f"doc_shape:{c.get('rule')}:{cl}:{d['spec']}")
+    if "multi" in (df or {}) and len(frames) > 1 and any(n == 0 for _, n in frames) and any(n > 0 for _, n in frames):
+        res.count("doc_shape:list_with_an_empty_section")
+    m = c.get("missing")
+    if m:
+        cols, n = frames[m["sec"]]
+        cl = "nocols" if not cols else "rows" + rows_class(n)
+        res.count(f"missing_col:{m['key']}:{m['form']}:{m['pos']}:{cl}")
+        res.count(f"missing_col:section {m['sec'] + 1} of {m['of']}" + ("" if "multi" in df else " (single frame)")
+                  + f":{cl}")
+    if c.get("new_page_inline"):
+        res.count(f"doc_shape:new_page_inline:{d['spec']}")
+    body = c.get("body")
+    specs = [] if body is None else (body["multi"] if "multi" in body else [body["single"]])
+    if any(bs.get("_str") for bs in specs):
+        res.count("doc_shape:grouping_as_string")
 
 
 def run(res: common.Result, build) -> int:
@@ -968,6 +1149,8 @@ def run(res: common.Result, build) -> int:
                     res.count(f"bad@{raw['t']}:{pc}")
         if c["kind"] == "doc":
             res.count(f"doc_rule:{c.get('rule')}")
+            if c.get("shaped"):
+                count_shape(res, c, d)
             if d.get("stage") and o["pi"] != "ok" and d["model"] != "ok" and d["stage"] != o["stage"]:
                 res.disagree(c, f"{_describe(c)}: exception raised at stage {o['stage']}, model says {d['stage']}")
         res.corr_checked += 1
